@@ -147,6 +147,30 @@ def _expected_name(t, rpc):
     return rpc
 
 
+def decode_errors_propagate(ctx, rule):
+    """in every generated server closure a failed read of a parameter (ParamsSequence::next / optional_next, Params::parse
+    for by-name) ends the call with the error: the Result is matched (its Err arm leaves the closure / rejects the
+    subscription) and is never collapsed by unwrap_or_default / unwrap_or / ok() - which would turn a value of the wrong
+    type into `None` and drop every later argument as well (the sequence is poisoned after an error)"""
+    F, R = ctx.F, ctx.R
+    n = 0
+    swallow = r"Result::<.*>::(unwrap_or_default|unwrap_or|unwrap_or_else|ok|unwrap|expect|map_or|map_or_else|is_ok|is_err)$"
+    for b in F.real_bodies():
+        if "::into_rpc::{closure#" not in b.path:
+            continue
+        dec = [c for c in b.calls if re.search(r"ParamsSequence::<'a>::(next|optional_next)$|Params::<'a>::(parse|one)$", c.name() or "")]
+        for c in dec:
+            n += 1
+            R.fn(b)
+            if c.dest is None:
+                continue
+            holders = follow_value(b, c.dest["l"])
+            bad = [x for x in b.calls_to(swallow) if x.args and op_place(x.args[0]) is not None and op_place(x.args[0])["l"] in holders]
+            matched = bool(flow.switch_on(b, c.dest["l"]))
+            R.check(not bad and matched, rule, "%s:%s@%d" % (fkey(b), (c.name() or "").split("::")[-1], sorted(x.bb for x in dec).index(c.bb)), "a failed parameter read ends the call with its error", "%s %s the result of %s: a parameter of the wrong type is %s instead of being answered with `invalid params` (-32602)" % (short(b.path), "collapses" if bad else "does not match on", (c.name() or "").split("::")[-1], "silently read as absent (and the following arguments are lost)" if bad else "not reported"), where(c))
+    return n
+
+
 def w6_runtime_key_encoding(ctx):
     """by-name stubs hand the declared wire name (any string a `rename` may contain) to ObjectParams::insert at run time:
     the only way that name may reach the buffer is serde_json's string serialiser, so that the key the server's field
@@ -349,6 +373,10 @@ def w_rules(ctx):
             R.check(got_al == want_al, "C17.W5", "%s::%s:declared-aliases" % (crate, tname), "aliases registered = aliases declared (%d)" % len(want_al), "declared aliases %s, registered %s" % (sorted(want_al - got_al), sorted(got_al - want_al)), "%s:%d" % (t["into_rpc"].file, t["into_rpc"].lo))
             want_decl = {m["rust"] for m in sp_t["methods"] + sp_t["subs"]}
             R.check(set(decls) == want_decl, "C17.W1", "%s::%s:all-declarations-present" % (crate, tname), "all %d declarations of %s were analysed" % (len(want_decl), tname), "declarations %s of %s are missing from the facts" % (sorted(want_decl - set(decls)), tname), None)
+    nd = decode_errors_propagate(ctx, "C17.W7")
+    R.extra["C17.decode_sites." + ctx.config] = nd
+    if ctx.config == "corpus":
+        R.floor("C17.W7", nd, 40, "parameter reads in the generated server closures of the corpus")
     R.extra["C17.declarations." + ctx.config] = ndecl
     floors = {"corpus": 48, "pmcore": 5, "repo-programs": 34}
     R.floor("C17." + ctx.config, ndecl, floors.get(ctx.config, 1), "#[rpc] declarations analysed in configuration %s" % ctx.config)
